@@ -1,10 +1,13 @@
 import os
+import re
 import core
 from concurrent.futures import ThreadPoolExecutor
 from checks.generic import compile_gen, first_index, COMMON_TRUSTED
 
 PROPS = ["c19_wire_only_public", "c19_no_private_on_wire", "c19_private_stays_local", "c19_private_file_mode", "c19_old_existing_mode_refuted", "c19_agent_replace", "c19_agent_replace_faulty", "c19_best_effort_cleanup_refuted",
-         "c19_offered_accepted_spec", "c19_old_p384_refuted"]
+         "c19_offered_accepted_spec", "c19_old_p384_refuted", "c19_wire_only_public_web", "c19_no_private_on_wire_web",
+         "c19_only_designated_agent", "c19_designated_agent_upsert", "c19_no_agent_adds_nothing", "c19_unusable_agent_adds_nothing",
+         "c19_install_only_designated", "c19_agent_discovery_refuted"]
 
 TRUSTED = [
     "USB token access stubbed: harness/stubs/flynn_hid_nocgo.go is overlaid into github.com/flynn/hid and the client is built with CGO_ENABLED=0 (no libudev on this machine); the U2F-device second factor of the client is not exercised",
@@ -13,8 +16,27 @@ TRUSTED = [
     "the byte search looks for the big-endian secret numbers (RSA d, primes, CRT values; ECDSA d; Ed25519 seed) in the recorded bytes and in their percent / base-64 / hex decodings at every alignment; an encrypted or otherwise transformed leak would not be seen",
     "x/crypto/ssh/agent keyring as the SSH agent (identities keyed by public blob, as OpenSSH's agent)",
     "tools/extract c19.go: pattern alternatives, rsaKeySize, serialisation / private-marshal / file-write tables",
+    "which agent: recording decoy keyrings listen at the conventional unix-socket places ($TMPDIR/ssh-*/agent.*, $TMPDIR/ssh-agent.sock, $HOME/.ssh/agent*, $HOME/.gnupg/S.gpg-agent.ssh, $XDG_RUNTIME_DIR/{ssh-agent.socket,openssh_agent,keyring/ssh,gnupg/S.gpg-agent.ssh}, /tmp/ssh-*/agent.*) with TMPDIR/HOME/XDG_RUNTIME_DIR pointing into a scratch directory; an agent contacted elsewhere is seen only through the success flag / the missing key file; the Windows named-pipe branch is not driven",
     "no Ed25519 CA in the generated daemon configuration: the optional Ed25519 request is answered 422 and the client goes on without it (key checks of the server still passed)",
 ]
+
+# further correspondences printed by the same case file: (definition, idx file, label, count definition)
+EXTRA_CORR = {
+    "CasesC19A.v": [("c19ae_mismatches", "CasesC19AE.idx", "which agent (library): success flag and the listing of EVERY agent of the scene (the one SSH_AUTH_SOCK names and the decoys at conventional places) after WithAddedKeyUpsertCertIntoAgent / UpsertCertIntoAgent in every agent environment situation = model world_upsert (%s scenes)", "c19ae_ncases")],
+    "CasesC19.v": [("c19w_mismatches", "CasesC19W.idx", "client runs with the web-browser login (stored CLI token, verifyToken, browser command, cookie received on the local listener): recorded requests, files, agent labels = model setup_wire_web / install (%s runs)", "c19w_ncases"),
+                   ("c19i_mismatches", "CasesC19I.idx", "which agent (client): agents of the scene and files under HOME after insertSSHCertIntoAgentORWriteToFilesystem in every agent environment situation = model install_ssh_env (%s scenes)", "c19i_ncases")],
+}
+# (definition, class, idx file, oracle text)
+VIOLATING = {
+    "CasesC19A.v": [("c19a_violating", "agent-replace", "CasesC19A.idx", "after an installation the observed agent listing breaks 'exactly one certificate under the label, nothing else removed, nothing added on error'"),
+                    ("c19ae_violating", "private-key-to-undesignated-agent", "CasesC19AE.idx", "the new identity (private key + certificate) is observed in an agent that SSH_AUTH_SOCK does not name")],
+    "CasesC19.v": [("c19_violating", "private-exposed", "CasesC19.idx", "a recorded request carries private key material or a private key file is accessible to group/others"),
+                   ("c19w_violating", "private-exposed", "CasesC19W.idx", "a recorded request of a web-login run carries private key material or a private key file is accessible to group/others"),
+                   ("c19i_violating", "private-key-to-undesignated-agent", "CasesC19I.idx", "the new identity is observed in an agent that SSH_AUTH_SOCK does not name"),
+                   ("c19i_violating_mode", "key-file-mode", "CasesC19I.idx", "a private key file under HOME is accessible to group/others after the installation")],
+    "CasesC19U.v": [("c19u_violating", "private-file-mode", "CasesC19U.idx", "the observed mode of the private key file has group/other bits")],
+    "CasesC19S.v": [("c19s_violating", "offered-refused", "CasesC19S.idx", "the server refuses a key of a type the client offers")],
+}
 
 def corr(ctx, res, name, label, idxfile):
     mism = res.get(name)
@@ -30,6 +52,26 @@ def corr(ctx, res, name, label, idxfile):
         if i < len(lines):
             first = lines[i][:3000]
     ctx.broken.append(("correspondence", name, {"label": label, "first_mismatch": first, "indices": (mism or "")[:400]}))
+
+def violating(ctx, res, name, klass, idxfile, oracle):
+    """round-2 addendum: indices (printed by the case file) of the mismatching cases whose OBSERVATION breaks the
+    property predicate as evaluated in Coq -> oracle hits C19:model-oracle:<class> carrying the case line"""
+    val = res.get(name)
+    if not val or val == "[]":
+        return
+    lines = []
+    p = os.path.join(ctx.work, idxfile)
+    if os.path.exists(p):
+        lines = open(p).read().split("\n")
+    for i in [int(x) for x in re.findall(r"(\d+)", val)][:20]:
+        case = lines[i] if i < len(lines) else "case #%d" % i
+        ctx.hits.append({"key": "C19:model-oracle:" + klass, "oracle": oracle + " (property predicate evaluated in Coq on the observed output of a case that differs from the model)",
+                         "what": case[:800], "case": {"index": i, "line": case[:3000]}, "kind": "input"})
+
+def env_for(ctx, pkgname):
+    p = os.path.join(ctx.work, "c19env_%s.go" % pkgname)
+    open(p, "w").write(open(os.path.join(core.VERIF, "harness", "base", "c19env.go")).read().replace("package verifbase", "package " + pkgname, 1))
+    return p
 
 def base_for(ctx, pkgname):
     p = os.path.join(ctx.work, "base_%s.go" % pkgname)
@@ -55,9 +97,9 @@ def run(ctx):
     with ThreadPoolExecutor(max_workers=4) as ex:
         fs = ex.submit(ctx.go_harness, "cmd/keymasterd", "TestVerif_C19S",
                        ["kmd/common.go", "kmd/creds.go", "kmd/consts.go", "kmd/c19s.go", os.path.join(ctx.work, "gen", "mux_gen.go")], timeout=1200)
-        fc = ex.submit(ctx.go_harness, "cmd/keymaster", "TestVerif_C19", [base_for(ctx, "main"), "client/c19c.go"],
+        fc = ex.submit(ctx.go_harness, "cmd/keymaster", "TestVerif_C19", [base_for(ctx, "main"), env_for(ctx, "main"), "client/c19c.go"],
                        env=nocgo, extra_overlay=stub, timeout=1200)
-        fa = ex.submit(ctx.go_harness, "lib/client/sshagent", "TestVerif_C19A", [base_for(ctx, "sshagent"), "sshagent/c19a.go"], timeout=900)
+        fa = ex.submit(ctx.go_harness, "lib/client/sshagent", "TestVerif_C19A", [base_for(ctx, "sshagent"), env_for(ctx, "sshagent"), "sshagent/c19a.go"], timeout=900)
         fu = ex.submit(ctx.go_harness, "lib/client/util", "TestVerif_C19U", [base_for(ctx, "util"), "clientutil/c19u.go"], timeout=900)
         try:
             c_ok, c_res, c_log = fc.result()
@@ -83,8 +125,12 @@ def run(ctx):
     for j, res in zip(jobs, outs):
         if res is not None:
             corr(ctx, res, j[1], j[3] % res.get(j[4], "?"), j[2])
+            for extra in EXTRA_CORR.get(j[0], []):
+                corr(ctx, res, extra[0], extra[2] % res.get(extra[3], "?"), extra[1])
+            for v in VIOLATING.get(j[0], []):
+                violating(ctx, res, *v)
     ctx.assumptions = ["the agent keeps identities with unique public blobs (hypothesis NoDup of c19_agent_replace; true of OpenSSH's agent and of the keyring used here)"]
     return ctx.finish("bin/build-coq; coqc Audit_Props_C19/Obl_C19/CasesC19*; go test -overlay TestVerif_C19S (cmd/keymasterd) + TestVerif_C19 (cmd/keymaster, CGO_ENABLED=0) + TestVerif_C19A (lib/client/sshagent)",
                       COMMON_TRUSTED + TRUSTED,
                       ["'no byte of the private key is sent' is a taint theorem over the model's request builders plus a byte search on the recorded traffic of real runs and a syntactic table of the serialisation sites; it is not a proof about Go's encoders",
-                       "second-factor paths driven: password-only and local TOTP; VIP push, Okta, U2F device (stubbed) and the web-browser login are not"])
+                       "login paths driven: password-only, password + local TOTP, and the web-browser login (lib/client/webauth) with the CLI token in the token file; VIP push, Okta, the U2F device (stubbed) and the branch of the web login that reads the token from the terminal (needs a tty on fd 0) are not"])
